@@ -10,8 +10,11 @@ import (
 	"fmt"
 	"io"
 	"math"
+	"os"
+	"os/exec"
 	"reflect"
 	"runtime"
+	"strconv"
 	"strings"
 	"sync"
 	"sync/atomic"
@@ -546,8 +549,84 @@ var compiledBodies = []struct {
 	{"a='a\\'b{{ v }}';b=\"a\\\"b\";c={{ v }};", Body5},
 }
 
+// first-use values: what a fresh process renders first (a string and a non-string value), and what it renders next
+var firstValues = []any{"plain", []string{"<a>"}, map[string]any{"k": 1}, 42}
+var secondValues = []any{"</script><script>alert(1)</script>", "<!--", []string{"</script>"}, "'\"`${x}"}
+
+// firstUse is the body of a fresh process: position p1 is the first thing it renders (with first value i), then
+// position p2 renders each second value. Prints the outputs; the parent applies the position's check.
+func firstUse(p1, i, p2 int) {
+	render(positions[p1].mk(firstValues[i]))
+	for j, v := range secondValues {
+		html, err := render(positions[p2].mk(v))
+		if err != nil {
+			fmt.Printf("ERR\t%d\t%s\n", j, strconv.Quote(err.Error()))
+			continue
+		}
+		fmt.Printf("OUT\t%d\t%s\n", j, strconv.Quote(html))
+	}
+}
+
 func main() {
+	if len(os.Args) > 4 && os.Args[len(os.Args)-4] == "firstuse" {
+		a, _ := strconv.Atoi(os.Args[len(os.Args)-3])
+		b, _ := strconv.Atoi(os.Args[len(os.Args)-2])
+		c, _ := strconv.Atoi(os.Args[len(os.Args)-1])
+		firstUse(a, b, c)
+		return
+	}
 	run = vlib.Start("C03", "exploration")
+	// ----- order of first use: fresh processes in which position p1 renders first (string or non-string value) and
+	// position p2 next: whatever is configured or built lazily by the first call must not decide how the second escapes
+	{
+		self, err := os.Executable()
+		if err != nil {
+			vlib.Fatal("%v", err)
+		}
+		type job struct{ p1, i, p2 int }
+		var jobs []job
+		for p1 := range positions {
+			for i := range firstValues {
+				for p2 := range positions {
+					jobs = append(jobs, job{p1, i, p2})
+				}
+			}
+		}
+		outs := make([]string, len(jobs))
+		errs := make([]error, len(jobs))
+		parallel(len(jobs), func(n int) {
+			j := jobs[n]
+			b, err := exec.Command(self, "firstuse", strconv.Itoa(j.p1), strconv.Itoa(j.i), strconv.Itoa(j.p2)).Output()
+			outs[n], errs[n] = string(b), err
+		})
+		checked := 0
+		for n, j := range jobs {
+			where := fmt.Sprintf("fresh process: %s with %#v first, then %s", positions[j.p1].name, firstValues[j.i], positions[j.p2].name)
+			if errs[n] != nil {
+				run.Violation("first-use-crash", where+": "+errs[n].Error(), map[string]any{"first": positions[j.p1].name, "then": positions[j.p2].name})
+				continue
+			}
+			for _, line := range strings.Split(strings.TrimSpace(outs[n]), "\n") {
+				f := strings.Split(line, "\t")
+				if len(f) != 3 {
+					continue
+				}
+				k, _ := strconv.Atoi(f[1])
+				text, _ := strconv.Unquote(f[2])
+				v := secondValues[k]
+				checked++
+				if f[0] == "ERR" {
+					run.Violation("first-use:"+positions[j.p2].name, fmt.Sprintf("%s with %#v: render error %s", where, v, text), map[string]any{"first": positions[j.p1].name, "then": positions[j.p2].name})
+					continue
+				}
+				if pr := positions[j.p2].check(v, text); pr != "" {
+					run.Violation("first-use:"+positions[j.p2].name, fmt.Sprintf("%s with %#v rendered %s: %s", where, v, vlib.Quote(text), pr), map[string]any{"first": positions[j.p1].name, "first_value": fmt.Sprintf("%#v", firstValues[j.i]), "then": positions[j.p2].name, "value": fmt.Sprintf("%#v", v), "html": text})
+				}
+			}
+		}
+		run.Cov["first_use_orders_in_fresh_processes"] = len(jobs)
+		run.Cov["first_use_renders_checked"] = checked
+	}
 
 	// ----- part 1: values × positions -----
 	alpha := []string{"<", ">", "/", "!", "-", "'", "\"", "`", "\\", "$", "{", "}", "&", ";", "\n", "\r", "\u2028", "\u2029", "\x00", "s", "</script", "<!--", "-->", "${", "\x80", "+"}
